@@ -54,7 +54,7 @@ type c02Env struct {
 	id     Ident
 }
 
-var c02MutKinds = []string{"bitflip", "bytesub", "truncate", "truncate-0", "append", "other-block", "empty", "oversized", "prefix-of-other", "dup-body", "cut-mid-body", "append-whitespace", "prepend-whitespace"}
+var c02MutKinds = []string{"bitflip", "bytesub", "truncate", "truncate-0", "append", "other-block", "empty", "oversized", "prefix-of-other", "dup-body", "cut-mid-body", "append-whitespace", "prepend-whitespace", "redirect-to-other-block"}
 
 // c02Mutate returns the corrupted body (different from orig) or nil.
 func c02Mutate(r *rand.Rand, kind string, orig []byte, other []byte) []byte {
@@ -267,6 +267,14 @@ func c02Corrupt(c *vf.Ctx) {
 			return func(ev ReqEvent) *Fault {
 				if ev.Rsrc != tc.String() {
 					return nil
+				}
+				if kind == "redirect-to-other-block" {
+					// the request is answered with a redirect to another, genuine block of the same chain: what
+					// the client ends up reading is intact, but it is not the block it asked for
+					other, _ := httpBodyOf(e, e.chain.Cids[otherIdx])
+					hit++
+					served = append(served, other)
+					return &Fault{Label: kind, Redirect: e.chain.Cids[otherIdx].String()}
 				}
 				if kind == "cut-mid-body" {
 					// the full length is announced, the connection is cut after k bytes: a read error mid-body
@@ -665,7 +673,7 @@ func c02Branching(c *vf.Ctx) {
 		target := reach[tpos]
 		other := reach[(tpos+1+r.Intn(len(reach)-1))%len(reach)]
 		kind := c02MutKinds[r.Intn(len(c02MutKinds))]
-		if kind == "cut-mid-body" {
+		if kind == "cut-mid-body" || kind == "redirect-to-other-block" {
 			kind = "bitflip"
 		}
 		announced := r.Intn(3) == 0
